@@ -123,26 +123,39 @@ class Collector:
         self.scen_id = None
         self.enc_errors = collections.Counter()
         self.inner = {}
-        self.day_enc = None
-        for m in encoders.values():
-            if getattr(m, "HANDLER", None) == "water_day" and hasattr(m, "encode_day"):
-                self.day_enc = m
+        self.day_encs = []
+        for m in (available_encoders_all().values() if encoders else []):
+            if getattr(m, "HANDLER", None) in ("water_day", "full_day") and hasattr(m, "encode_day") \
+                    and m not in self.day_encs:
+                self.day_encs.append(m)
 
     def observe(self, name, before, res, after):
         L = self.encoders.get(name)
-        if self.day_enc is not None:
-            if name in self.day_enc.INNER:
-                self.inner.setdefault(name, []).append((before, res))
-            if name == self.day_enc.NAME:
-                inner, self.inner = self.inner, {}
+        handled = False
+        for D in self.day_encs:
+            inner_names = getattr(D, "INNER", [])
+            if name in inner_names:
+                self.inner.setdefault(D.HANDLER, {}).setdefault(name, []).append((before, res))
+            if name == D.NAME:
+                handled = True
+                inner = self.inner.pop(D.HANDLER, {})
                 try:
-                    r = self.day_enc.encode_day(self.reg, before, res, after, inner)
+                    r = D.encode_day(self.reg, before, res, after, inner) if inner_names else D.encode_day(self.reg, before, res, after)
                     if r is not None:
                         t = self.cur["t"] if self.cur else -1
-                        self.pairs["water_day"].append((self.scen_id, t, r[0], r[1]))
+                        self.pairs[D.HANDLER].append((self.scen_id, t, r[0], r[1]))
                 except Exception as e:  # noqa: BLE001
-                    self.enc_errors[f"water_day:{type(e).__name__}:{str(e)[:80]}"] += 1
-                L = None
+                    self.enc_errors[f"{D.HANDLER}:{type(e).__name__}:{str(e)[:80]}"] += 1
+            if name == "reset_initial_conditions" and hasattr(D, "encode_reset"):
+                try:
+                    r = D.encode_reset(self.reg, before, res, after)
+                    if r is not None:
+                        t = self.cur["t"] if self.cur else -1
+                        self.pairs["reset_state"].append((self.scen_id, t, r[0], r[1]))
+                except Exception as e:  # noqa: BLE001
+                    self.enc_errors[f"reset_state:{type(e).__name__}:{str(e)[:80]}"] += 1
+        if handled:
+            L = None
         if L is not None:
             try:
                 line, exp = L.encode(self.reg, before, res, after)
